@@ -356,6 +356,45 @@ def constructor_family(ctx, only=None):
                          "constructors calling self.m()": list(calls[:depth]), "invariant": code})
 
 
+def interpreter_modes(ctx, only=None):
+    """The guard does not depend on the interpreter mode: a stand-alone program (vf/scripts/c10_optmode.py: contracts forced
+    with enabled=True whose conditions, captures, error factories and invariants re-enter their own callable directly,
+    mutually and through a second object; bodies that recurse) runs in a child interpreter normally, with -O and with -OO
+    (assert statements stripped, __debug__ False, docstrings dropped). Every scenario terminates with the outcome and the
+    event list spelled out in c10_optmode.expected.json."""
+    import json
+    import os
+    import subprocess
+    import sys
+
+    here = os.path.join(os.path.dirname(os.path.dirname(os.path.abspath(__file__))), "scripts")
+    want = json.load(open(os.path.join(here, "c10_optmode.expected.json")))
+    repo = os.path.abspath(os.environ.get("VERIF_REPO", "/repo"))
+    for flags in ([], ["-O"], ["-OO"]):
+        mode = "".join(flags) or "default"
+        if only is not None and only != mode:
+            continue
+        env = dict(os.environ, PYTHONDONTWRITEBYTECODE="1")
+        env.pop("PYTHONOPTIMIZE", None)
+        p = subprocess.run([sys.executable] + flags + [os.path.join(here, "c10_optmode.py"), repo], capture_output=True, text=True,
+                           timeout=300, env=env)
+        try:
+            got = json.loads(p.stdout)
+        except ValueError:
+            raise RuntimeError("c10_optmode.py did not print JSON (mode %s): %s %s" % (mode, p.stdout[-300:], p.stderr[-600:]))
+        if os.path.dirname(os.path.dirname(got.pop("icontract"))) != repo or got.pop("__debug__") != (not flags):
+            raise RuntimeError("c10_optmode.py ran with the wrong library or mode")
+        for label in sorted(want):
+            ctx.case(["interpreter-mode", mode, label], bool(flags), sample={"directed": "interpreter mode %s: %s" % (mode, label),
+                                                                           "outcome": got.get(label, [None])[0]})
+            ctx.count("directed:interpreter-modes")
+            if got.get(label) != want[label]:
+                ctx.fail("interpreter-mode|%s|%s" % (mode, label.split("/")[0]), {"interpreter_mode": mode},
+                         "python %s vf/scripts/c10_optmode.py, scenario %s: expected outcome %r with %d events, got %r with events %r" % (
+                             " ".join(flags), label, want[label][0], len(want[label][1]), got.get(label, [None])[0],
+                             (got.get(label) or [None, None])[1]))
+
+
 def run(ctx, tier, seed, shard, nshards):
     import sys
 
@@ -400,11 +439,17 @@ def run(ctx, tier, seed, shard, nshards):
         code_sharing(ctx)
         constructor_family(ctx)
         after_rejected_call(ctx)
+        interpreter_modes(ctx)
 
 
 def replay(ctx, case):
     import sys
 
+    if case.get("interpreter_mode"):
+        before = ctx.evaluations
+        interpreter_modes(ctx, only=case["interpreter_mode"])
+        ctx.evaluations = before + 1
+        return
     if case.get("after_rejected"):
         before = ctx.evaluations
         after_rejected_call(ctx)
